@@ -85,7 +85,45 @@ func sortedLabels(m map[string]bool) []string {
 }
 
 // runNilTaint propagates from the roots; each root carries its message type name as label.
+//
+// The label aliases of local literals (`lit:T.f` stands for what was stored into field f of a local T) are discovered
+// during the propagation, and a label extended before its alias was known stays unresolved; the propagation is therefore
+// repeated, each pass resolving labels through the aliases the previous pass found, until the alias table is stable, so that the result does not depend on the order in
+// which the fields of a literal are written or the worklist is served.
 func (w *World) runNilTaint(roots map[ssa.Value]string) *taintState {
+	prev := map[string]map[string]bool{}
+	var ts *taintState
+	for iter := 0; iter < 6; iter++ {
+		ts = w.runNilTaintOnce(roots, prev)
+		if sameAlias(prev, ts.alias) {
+			break
+		}
+		prev = ts.alias
+	}
+	return ts
+}
+
+func sameAlias(a, b map[string]map[string]bool) bool {
+	if len(a) != len(b) {
+		return false
+	}
+	for k, m := range a {
+		n, ok := b[k]
+		if !ok || len(n) != len(m) {
+			return false
+		}
+		for l := range m {
+			if !n[l] {
+				return false
+			}
+		}
+	}
+	return true
+}
+
+// runNilTaintOnce: one propagation; labels are resolved through the aliases of the previous pass (known), the aliases
+// found in this pass are collected in ts.alias.
+func (w *World) runNilTaintOnce(roots map[ssa.Value]string, known map[string]map[string]bool) *taintState {
 	ts := &taintState{w: w, info: map[ssa.Value]*tval{}, slot: map[ssa.Value]*tval{}, alias: map[string]map[string]bool{}, funcs: map[*ssa.Function]bool{}}
 	cg := w.CG()
 	var work []ssa.Value
@@ -127,7 +165,7 @@ func (w *World) runNilTaint(roots map[ssa.Value]string) *taintState {
 			if len(nl) > 160 {
 				continue
 			}
-			if al, ok := ts.alias[nl]; ok {
+			if al, ok := known[nl]; ok {
 				for a := range al {
 					out[a] = true
 				}
